@@ -309,6 +309,7 @@ class Unit:
                     "ret_type": o.get("rettype"),
                     "wrap": o["wrap"].split(",") if o.get("wrap") else [],
                     "manual": d.manual,
+                    "loopify": o.get("loopify"),
                 })
         return {"items": items}
 
